@@ -522,20 +522,12 @@ func Run(r *monitor.Run) {
 		if fac.Name != "mem" {
 			exLen = r.Pick(2, 3) // network round trips: keep the exhaustive part smaller
 		}
-		c := &checker{r: r, u: tiny, fac: fac}
 		var cur []op
+		var hists [][]op
 		var dfs func(d int)
 		dfs = func(d int) {
 			if d > 0 {
-				states := c.runHistory(cur, false)
-				r.Eval(1)
-				r.Count("exhaustive_histories_"+fac.Name, 1)
-				for _, s := range states {
-					r.Distinct("model_states", s)
-					if s != "" {
-						r.Nontrivial("tiny|" + fac.Name + "|" + fmt.Sprint(cur))
-					}
-				}
+				hists = append(hists, append([]op{}, cur...))
 			}
 			if d == exLen {
 				return
@@ -547,6 +539,23 @@ func Run(r *monitor.Run) {
 			}
 		}
 		dfs(0)
+		workers := 16
+		if fac.Name != "mem" {
+			workers = 1
+		}
+		fac := fac
+		r.Parallel(len(hists), workers, func(i int) {
+			c := &checker{r: r, u: tiny, fac: fac}
+			states := c.runHistory(hists[i], false)
+			r.Eval(1)
+			r.Count("exhaustive_histories_"+fac.Name, 1)
+			for _, s := range states {
+				r.Distinct("model_states", s)
+				if s != "" {
+					r.Nontrivial("tiny|" + fac.Name + "|" + fmt.Sprint(hists[i]))
+				}
+			}
+		})
 	}
 
 	// (B) random histories over the big universe
@@ -560,9 +569,17 @@ func Run(r *monitor.Run) {
 			n = r.Pick(60, 3000)
 		}
 		rng := r.Rand("random-" + fac.Name)
-		c := &checker{r: r, u: big, fac: fac}
-		for i := 0; i < n; i++ {
-			ops := randomHistory(rng, big, 5+rng.Intn(maxOps))
+		all := make([][]op, n)
+		for i := range all {
+			all[i] = randomHistory(rng, big, 5+rng.Intn(maxOps))
+		}
+		workers := 16
+		if fac.Name != "mem" {
+			workers = 1 // the durable back ends share one store server
+		}
+		r.Parallel(n, workers, func(i int) {
+			c := &checker{r: r, u: big, fac: fac}
+			ops := all[i]
 			states := c.runHistory(ops, true)
 			r.Eval(1)
 			r.Count("random_histories_"+fac.Name, 1)
@@ -578,7 +595,7 @@ func Run(r *monitor.Run) {
 				}
 				r.Sample(map[string]any{"store": fac.Name, "history_prefix": hs, "ops": len(ops)})
 			}
-		}
+		})
 	}
 
 	// (C) TopicMatch: exhaustive over all valid (name, plain filter) pairs of the big universe
@@ -744,7 +761,12 @@ func RunSharedStore(r *monitor.Run) {
 			n = r.Pick(60, 3000)
 		}
 		rng := r.Rand("shared-" + fac.Name)
-		for i := 0; i < n; i++ {
+		type job struct {
+			u   universe
+			ops []op
+		}
+		jobs := make([]job, n)
+		for i := range jobs {
 			u := universe{clients: []string{"c1", "c2", "c3", "c4", "c5"}, probes: big.probes}
 			k := 2 + rng.Intn(4)
 			for j := 0; j < k; j++ {
@@ -754,8 +776,15 @@ func RunSharedStore(r *monitor.Run) {
 					u.filters = append(u.filters, "$share/"+g+"/"+f)
 				}
 			}
+			jobs[i] = job{u, sharedHistory(rng, u, 5+rng.Intn(r.Pick(40, 80)))}
+		}
+		workers := 16
+		if fac.Name != "mem" {
+			workers = 1 // the durable back ends share one store server
+		}
+		r.Parallel(n, workers, func(i int) {
+			u, ops := jobs[i].u, jobs[i].ops
 			c := &checker{r: r, u: u, fac: fac, shared: true}
-			ops := sharedHistory(rng, u, 5+rng.Intn(r.Pick(40, 80)))
 			states := c.runHistory(ops, true)
 			r.Eval(1)
 			r.Count("store_histories_"+fac.Name, 1)
@@ -771,7 +800,7 @@ func RunSharedStore(r *monitor.Run) {
 				}
 				r.Sample(map[string]any{"store": fac.Name, "store_history_prefix": hs})
 			}
-		}
+		})
 	}
 }
 
